@@ -862,7 +862,7 @@ TABLE["C03"] += [
     B("child-namespaces-through-a-dict", {"A3"},
       (PW, "                if isinstance(element, parser.Namespace):\n                    (\n                        wrapped_namespace,\n                        includes_namespace,\n                    ) = self.wrap_namespace(  # noqa\n                        element)",
        "                if isinstance(element, parser.Namespace):\n                    (\n                        wrapped_namespace,\n                        includes_namespace,\n                    ) = self.wrap_namespace(  # noqa\n                        {e.name: e for e in namespace.content if isinstance(e, parser.Namespace)}[element.name])")),
-    B("keyword-list-extended-through-alias", {"A8"},
+    B("keyword-list-extended-through-alias", {"A8", "A6"},
       (PW, "            python_keywords = self.python_keywords + ['print']", "            python_keywords = self.python_keywords\n            python_keywords += ['print']")),
 ]
 TABLE["C04"] += [
@@ -1531,7 +1531,7 @@ TABLE["C01"] += [
     B("forward-declaration-base-as-alternation", {"G13"},
       (IP + "declaration.py", "from .type import Typename", "from .type import TemplatedType, Typename"),
       (IP + "declaration.py", "            Optional(COLON + Typename.rule(\"parent_type\")) +", "            Optional(COLON + (TemplatedType.rule ^ Typename.rule)(\"parent_type\")) +")),
-    N("forward-declaration-base-as-alternation-unwrapped",
+    B("forward-declaration-base-as-alternation-unwrapped", {"G18"},      # a templated base is accepted and stored without the markers of its arguments
       (IP + "declaration.py", "from .type import Typename", "from .type import TemplatedType, Typename"),
       (IP + "declaration.py", "            Optional(COLON + Typename.rule(\"parent_type\")) +", "            Optional(COLON + (TemplatedType.rule ^ Typename.rule)(\"parent_type\")) +"),
       (IP + "declaration.py", "        if parent_type:\n            self.parent_type = parent_type\n", "        if parent_type:\n            parent_type = parent_type[0]\n            if isinstance(parent_type, TemplatedType):\n                parent_type = parent_type.typename\n            self.parent_type = parent_type\n")),
@@ -1799,3 +1799,15 @@ for _m in TABLE["C06"]:
 for _m in TABLE["C11"]:
     if _m["kind"] == "break" and "H9" in _m["rules"]:
         _m["rules"] |= {"H18"}
+
+# rounds 11 / 12
+TABLE["C01"] += [
+    B("forward-declaration-with-a-base-counts-as-virtual", {"G18"}, (IP + "declaration.py", "        self.is_virtual = is_virtual\n", "        self.is_virtual = is_virtual or ('virtual' if parent_type else '')\n")),
+    B("forward-declaration-always-virtual", {"G18"}, (IP + "declaration.py", "        self.is_virtual = is_virtual\n", "        self.is_virtual = is_virtual or 'virtual'\n")),
+    N("forward-declaration-flag-through-a-local", (IP + "declaration.py", "        self.is_virtual = is_virtual\n", "        flag = is_virtual\n        self.is_virtual = flag\n")),
+]
+for _p, _rs in (("C06", {"M18", "M1"}), ("C05", {"I11"}), ("C11", {"H19"})):
+    TABLE[_p] += [
+        B("inputs-all-read-from-the-first-slot", set(_rs),
+          (MW, "                               unwrap=unwrap)),\n                                         prefix='  ')\n            arg_id += 1\n", "                               unwrap=unwrap)),\n                                         prefix='  ')\n")),
+    ]
